@@ -10,6 +10,13 @@ Tier P : (shapes fixed by the mathematics: 3-vectors and 3x3 matrices) the real 
 Tier B : seeded directions incl. axis-aligned and nearly (anti-)parallel ones: the same clauses numerically; compute_normal /
          compute_tangent of planar clouds and lines orthogonal / parallel to the set; map_grid preserves distances;
          TangentialNormalProjection blocks orthogonal, last row the normal, determinant.
+         Length scales and small tilts (`_sweep_scales`): the clauses are scale-free, so the same planar lattices and a planar
+         CartGrid are also taken at diameters 1e-3 ... 1e2 (thorough 1e-4 ... 1e3), in seeded random planes and in the three
+         coordinate planes tilted by 1e-2 ... 1e-7 rad; compute_normal / project_plane_matrix(pts) / map_grid are then judged
+         relative to the diameter of the cloud.  Seeded change caught only by this family (quick tier): compute_normal zeroing
+         the components of the un-normalised cross product below an ABSOLUTE threshold -> "compute_normal: unit vector
+         orthogonal to the planar point set" (signatures "random plane, cloud diameter below 1", "xy/yz/zx plane tilted, ..."),
+         "project_plane_matrix: returns normally ..." / "map_grid: returns normally ..." (AssertionError of the planarity test).
 """
 from __future__ import annotations
 
@@ -19,7 +26,9 @@ META = {
     "technique": "contract-based deductive verification: polynomial identities (orthogonality, determinant, fixed axis, normal mapped to e_z) of the real rotation / projection matrix functions on symbolic 3-vectors discharged by z3 NRA under the trigonometric and sqrt axioms; numeric sweep for point-cloud based functions and the tangential-normal basis",
     "text": "Tier P: rotation_matrix, project_plane_matrix(normal=...), project_line_matrix(tangent=...), normal_matrix, tangent_matrix satisfy the "
             "statement for all real inputs (non-zero vectors). Tier B: plane fitting (compute_normal), map_grid and the vectorised tangential-normal "
-            "basis, which use data-dependent masks, over seeded directions incl. axis-aligned and nearly parallel cases. Mixed tiers -> level 'other'.",
+            "basis, which use data-dependent masks, over seeded directions incl. axis-aligned and nearly parallel cases; planar clouds and a planar "
+            "grid also at diameters 1e-3..1e2 (thorough 1e-4..1e3) in random planes and in coordinate planes tilted by 1e-2..1e-7 rad, judged relative "
+            "to the cloud diameter. Mixed tiers -> level 'other'.",
     "note": "sin/cos/arccos/sqrt uninterpreted with the identities sin^2+cos^2=1, cos(arccos u)=u and sin(arccos u)=sqrt(1-u^2) for |u|<=1, sqrt(u)^2=u; "
             "floats as reals; the tolerance test np.allclose(v, 0) of rotation_matrix is encoded exactly",
 }
@@ -238,8 +247,11 @@ def _sweep(rep, pp):
     with rep.sweep("rotation / projection matrices, plane fitting, tangential-normal bases",
                    rule="directions: axis-aligned, diagonal, within 1e-3..1e-9 of (anti-)parallel to e_z, seeded random over 6 orders of magnitude; angles from a "
                         "lattice and seeded; planar point clouds = rotated planar lattices (3-8 points) incl. nearly collinear ones; grids: Cartesian 1-D/2-D embedded "
-                        "by seeded rigid motions; tangential-normal projection for 2-D and 3-D normal sets; tolerances 1e-10 relative; nontrivial = direction not a "
-                        "coordinate axis; distinct by input", bound="60 (quick) / 600 (thorough) seeded directions", exhaustive=False) as sw:
+                        "by seeded rigid motions; tangential-normal projection for 2-D and 3-D normal sets; tolerances 1e-10 relative; the same planar lattices "
+                        "and CartGrid([3,2]) times a length scale 1e-3..1e2 (thorough 1e-4..1e3), in seeded random planes and in the xy/yz/zx planes tilted by "
+                        "1e-2..1e-7 rad (thorough 0.3..1e-7) about a seeded in-plane axis, offsets scaled with the cloud (every third small cloud: O(1) offset), "
+                        "tolerances relative to the cloud diameter; nontrivial = direction not a coordinate axis; distinct by input",
+                   bound="60 (quick) / 600 (thorough) seeded directions; 5 scales x 15 layouts (quick) / 8 scales x 96 layouts (thorough)", exhaustive=False) as sw:
         I3 = np.eye(3)
         dirs = _dirs(rng, 60 if quick else 600)
 
@@ -347,6 +359,104 @@ def _sweep(rep, pp):
                 if abs(np.linalg.det(P) - 1) > 1e-7:
                     cls = "2d, normal with n_y < 0 or n = (+x, 0)" if (dim == 2 and (nh[1] < 0 or (nh[1] == 0 and nh[0] > 0))) else f"{dim}d"
                     rep.violation("TangentialNormalProjection: block has unit determinant", cls, inputs=inp, detail=f"det = {np.linalg.det(P)}")
+        # (drawn last so that the seeded cases above are unchanged)
+        _sweep_scales(rep, pp, sw, call, _Raised, is_rot)
+
+
+def _rodrigues(axis, ang):
+    """rotation by `ang` about `axis` (closed form, independent of the code under test)"""
+    u = np.asarray(axis, dtype=float) / np.linalg.norm(axis)
+    K = np.array([[0, -u[2], u[1]], [u[2], 0, -u[0]], [-u[1], u[0], 0]])
+    return np.cos(ang) * np.eye(3) + np.sin(ang) * K + (1 - np.cos(ang)) * np.outer(u, u)
+
+
+def _sweep_scales(rep, pp, sw, call, _Raised, is_rot):
+    """Orthonormality, 'the normal is orthogonal to the set' and distance preservation are statements about directions and ratios
+    of lengths only, so they hold for a planar cloud / planar grid of any diameter and for planes at any angle to the coordinate
+    planes.  Clouds = integer planar lattices (3-8 points, |coordinates| <= 4, rank 2) times a length scale, laid (a) in a seeded
+    random plane or (b) in a coordinate plane (xy, yz, zx) tilted by a small angle about a seeded in-plane axis (closed-form
+    Rodrigues rotation in the sidecar); grid = CartGrid([3, 2]) embedded the same way.  All deviations are measured RELATIVE to the
+    diameter of the cloud (plus the rounding of the stored coordinates, 1e-11 * max |coordinate|):
+      compute_normal: |n| = 1 (1e-10) and |n . chord| <= 1e-9 * diameter;
+      project_plane_matrix(pts): rotation (1e-10), |z-spread of R pts| <= 1e-7 * diameter (arccos of a cosine within 1e-16 of 1
+          resolves angles near 1e-8 rad only to ~1e-8), pairwise distances preserved to 1e-9 * diameter;
+      map_grid: returns normally, g.dim local coordinates, rotation, the dropped local coordinate of R nodes is constant
+          (1e-7 * diameter), distances between cell centres preserved (1e-9 * diameter).
+    All comparisons are written `not (x <= tol)` so that NaN results fail."""
+    rng = rep.rng
+    quick = rep.tier == "quick"
+    mg = pp.map_geometry
+    scales = (1e-3, 1e-2, 1e-1, 1.0, 1e2) if quick else (1e-4, 1e-3, 1e-2, 1e-1, 1.0, 1e1, 1e2, 1e3)
+    tilts = (1e-2, 1e-4, 1e-6, 1e-7) if quick else (0.3, 1e-2, 1e-3, 1e-4, 1e-5, 1e-6, 1e-7)
+    perms = {"xy": [0, 1, 2], "yz": [2, 0, 1], "zx": [1, 2, 0]}
+    reps = 1 if quick else 4
+    for scale in scales:
+        layouts = [("random plane", None, None)] * (3 * reps)
+        layouts += [(f"{nm} plane tilted", nm, tl) for nm in perms for tl in tilts] * reps
+        for idx, (lname, nm, tl) in enumerate(layouts):
+            k = rng.randint(3, 8)
+            P2 = np.array([[rng.randint(-4, 4) for _ in range(k)], [rng.randint(-4, 4) for _ in range(k)], [0] * k], dtype=float)
+            phi = rng.uniform(0, 2 * np.pi)
+            Q = _rand_rot(rng)
+            t = np.array([rng.uniform(-5, 5) for _ in range(3)])
+            if np.linalg.matrix_rank(P2[:2] - P2[:2].mean(axis=1, keepdims=True)) < 2:
+                sw.skip()
+                continue
+            # every third small cloud keeps an O(1) offset (a small cloud away from the origin); otherwise a pure similarity
+            if not (scale < 1 and idx % 3 == 0):
+                t = t * scale
+            if nm is None:
+                A, p = Q, [0, 1, 2]
+            else:
+                p = perms[nm]
+                A = _rodrigues(np.array([np.cos(phi), np.sin(phi), 0.0])[p], tl)
+            emb = lambda X: A @ (scale * X[p]) + t[:, None]  # noqa: E731
+            pts = emb(P2)
+            diam = float(np.linalg.norm(pts[:, :, None] - pts[:, None, :], axis=0).max())
+            noise = 1e-11 * float(np.abs(pts).max())
+            cls = f"{lname}, cloud diameter {'below' if scale < 1 else 'at least'} 1"
+            inp = {"pts": pts.tolist(), "scale": scale, "layout": lname, "tilt": tl}
+            sw.case(("scaled cloud", scale, lname, tl, idx), True, sample={"scale": scale, "layout": lname, "tilt": tl})
+            try:
+                nrm = np.asarray(call("compute_normal", lambda: mg.compute_normal(pts.copy()), inp), dtype=float)
+                if not (abs(np.linalg.norm(nrm) - 1) <= 1e-10) or not (np.max(np.abs(nrm @ (pts - pts[:, [0]]))) <= 1e-9 * diam + noise):
+                    rep.violation("compute_normal: unit vector orthogonal to the planar point set", cls, inputs=inp,
+                                  detail=f"normal {nrm.tolist()}, max |n . chord| / diameter = {np.max(np.abs(nrm @ (pts - pts[:, [0]]))) / diam!r}")
+            except _Raised:
+                pass
+            try:
+                R = np.asarray(call("project_plane_matrix", lambda: mg.project_plane_matrix(pts.copy()), inp), dtype=float)
+                ok = is_rot(R)
+                if ok:
+                    rp = R @ pts
+                    d0 = np.linalg.norm(pts[:, :, None] - pts[:, None, :], axis=0)
+                    d1 = np.linalg.norm(rp[:, :, None] - rp[:, None, :], axis=0)
+                    ok = bool(np.ptp(rp[2]) <= 1e-7 * diam + noise) and bool(np.max(np.abs(d0 - d1)) <= 1e-9 * diam + noise)
+                if not ok:
+                    rep.violation("project_plane_matrix(pts): rotation mapping the plane to z = const and preserving distances", cls, inputs=inp,
+                                  detail=f"R = {R.tolist()}")
+            except _Raised:
+                pass
+            g = pp.CartGrid([3, 2])
+            g.nodes = emb(g.nodes)
+            g.compute_geometry()
+            ginp = {"grid": "CartGrid([3, 2])", "nodes": g.nodes.tolist(), "scale": scale, "layout": lname, "tilt": tl}
+            gdiam = float(np.linalg.norm(g.nodes[:, :, None] - g.nodes[:, None, :], axis=0).max())
+            gnoise = 1e-11 * float(np.abs(g.nodes).max())
+            try:
+                cc, fc, fn, R2, dim, nodes = call("map_grid", lambda: mg.map_grid(g), ginp)
+            except _Raised:
+                continue
+            sw.case(("scaled map_grid", scale, lname, tl, idx), True)
+            D0 = np.linalg.norm(g.cell_centers[:, :, None] - g.cell_centers[:, None, :], axis=0)
+            D1 = np.linalg.norm(cc[:, :, None] - cc[:, None, :], axis=0)
+            dim = np.asarray(dim, dtype=bool)
+            ok = cc.shape[0] == g.dim and nodes.shape[0] == g.dim and dim.sum() == g.dim and is_rot(R2)
+            if ok:
+                dropped = (np.asarray(R2) @ g.nodes)[~dim]
+                ok = bool(np.max(np.abs(D0 - D1)) <= 1e-9 * gdiam + gnoise) and bool(np.ptp(dropped, axis=1).max() <= 1e-7 * gdiam + gnoise)
+            if not ok:
+                rep.violation("map_grid: local coordinates preserve distances", f"2d grid, {cls.replace('cloud', 'grid')}", inputs=ginp, detail="")
 
 
 def replay(data):
@@ -358,6 +468,24 @@ def replay(data):
         P = pp.TangentialNormalProjection(n)._projection[:, :, 0]
         print("block", P.tolist(), "det", np.linalg.det(P))
         return abs(np.linalg.det(P) - 1) > 1e-10 or not np.allclose(P @ P.T, np.eye(n.shape[0]))
+    if ("pts" in inp or "nodes" in inp) and not str(data.get("obligation", "")).startswith("compute_tangent"):
+        # planar cloud (or the nodes of a planar grid): the computed normal is a unit vector orthogonal to every chord and
+        # project_plane_matrix(pts) flattens the cloud, relative to its diameter
+        pts = np.array(inp.get("pts", inp.get("nodes")), dtype=float)
+        diam = float(np.linalg.norm(pts[:, :, None] - pts[:, None, :], axis=0).max())
+        noise = 1e-11 * float(np.abs(pts).max())
+        try:
+            nrm = pp.map_geometry.compute_normal(pts.copy())
+            defect = float(np.max(np.abs(nrm @ (pts - pts[:, [0]]))))
+            print("normal", nrm.tolist(), "max |n . chord| / diameter", defect / diam)
+            if not (abs(np.linalg.norm(nrm) - 1) <= 1e-10) or not (defect <= 1e-9 * diam + noise):
+                return True
+            z = (pp.map_geometry.project_plane_matrix(pts.copy()) @ pts)[2]
+            print("z-spread of the mapped cloud / diameter", float(np.ptp(z)) / diam)
+            return not (np.ptp(z) <= 1e-7 * diam + noise)
+        except Exception as e:  # noqa
+            print("raises", type(e).__name__, e)
+            return True
     return False
 
 
